@@ -74,8 +74,10 @@ def main():
             res["capture"] = cap.dump(out_dir)
         except Exception as ex:
             res["capture_error"] = traceback.format_exc()[-2000:]
-    with open(os.path.join(out_dir, "result.json"), "w") as f:
+    tmp = os.path.join(out_dir, "result.json.tmp")
+    with open(tmp, "w") as f:
         json.dump(res, f)
+    os.replace(tmp, os.path.join(out_dir, "result.json"))   # atomically: readers never see a partial file
 
 
 if __name__ == "__main__":
